@@ -18,6 +18,7 @@ EXPLANATION = (
     "centroid is sum(x*y)/sum(y) and the bisector is built from the normalised cumulative sum; every reduction runs "
     "along the sampling axis (1); Op.midpoints is start + (i + 0.5) * (end - start) / resolution (normal forms, integer index range); elementwise safety; "
     "every parameter of the integral defuzzifiers and of Op.midpoints is read (S6)"
+    "; P7 - Aggregated.membership folds every activated term in, for any S-norm"
 )
 ASSUMPTIONS = ["the centroid/bisector values, range membership and the translation law are numeric and not decided"]
 FLOORS = {"S1": 10, "S2": 1, "R1": 3, "R2": 3, "R3": 5, "S5": 4, "V1": 5, "S6": 1}
